@@ -434,6 +434,30 @@ def entry_points_initial_state(rep):
     rep.nontrivial.add('entry-initial-state')
 
 
+def reloaded_composite_runs(rep):
+    """A composite read back from a store (get_composite_from_store,
+    Composite(store=...)) runs like the composite the store was generated from."""
+    want = rows_of(Engine(composite=ComposerB().generate(), display_info=False))
+    for via in ('get_composite_from_store', 'Composite(store=)'):
+        rep.evaluations += 1
+        sig = {'kind': 'reloaded-composite-runs', 'via': via}
+        try:
+            store = ComposerB().generate().generate_store()
+            comp = get_composite_from_store(store) if via.startswith('get') \
+                else Composite(store=store)
+            got = rows_of(Engine(composite=comp, display_info=False))
+        except Exception as e:
+            rep.violation(dict(sig, what='raised'),
+                          'C16 an engine built from a composite read back from a store (%s) '
+                          'raised %r' % (via, e), {})
+            continue
+        if got != want:
+            rep.violation(sig, 'C16 an engine built from a composite read back from a store '
+                          '(%s) emits %r, the original composite %r'
+                          % (via, got.get(3.0), want.get(3.0)), {})
+    rep.nontrivial.add('reloaded-composite-runs')
+
+
 def steps_only(rep):
     """A composite that holds steps and no process runs through every entry point."""
     rep.evaluations += 1
@@ -692,6 +716,7 @@ def check(prop, tier, seed):
     rep.guard(entry_points, rep, tier, what='engine entry points')
     rep.guard(overrides, rep, what='schema overrides / MetaComposer')
     rep.guard(steps_only, rep, what='steps-only composite')
+    rep.guard(reloaded_composite_runs, rep, what='a composite read back from a store')
     rep.guard(entry_points_initial_state, rep, what='entry points with initial_state()')
     rep.guard(entry_points_legacy_steps, rep, what='entry points with steps among the processes')
     return rep.finish()
